@@ -21,7 +21,8 @@ KEY_D2 = "C10:D2:meta-seek-failed-load-keeps-old-tag"
 KEY_D3 = "C10:D3:meta-read-after-failed-seek-underflow"
 KEY_D21 = "C10:D21:data-block-cache-keyed-by-location-only"
 
-HARNESS_SRC = ["h_c10.c", "h_c10_data.c"]
+HARNESS_SRC = ["h_c10.c", "h_c10_data.c", "h_c10_img.c"]
+PATCHES = ["C10-meta-seek-invalidate.patch", "C10-data-reader-cache-key.patch"]
 
 
 # ---------------------------------------------------------------------------------------------------------
@@ -265,7 +266,7 @@ def strip_io(l):
 
 def run_harness(ctx, harness, lines, timeout=120):
     try:
-        r = vlib.sh([str(harness)], input="\n".join(lines) + "\n", env=ctx.san_env(), timeout=timeout)
+        r = vlib.sh([str(harness)], input="\n".join(lines) + "\n", env=ctx.san_env(), timeout=timeout, errors="replace")
         return r.stdout.splitlines(), r.returncode, r.stderr[-1500:]
     except subprocess.TimeoutExpired:
         return [], -9, "timeout"
@@ -393,6 +394,273 @@ def report(ctx, harness, res, counts):
                           found_input=(v != "corr"))
 
 
+# ---------------------------------------------------------------------------------------------------------
+# whole-image histories on images written by the working tree's gensquashfs (history vs fresh readers; no model)
+
+def make_image(ctx, gen, rng, idx):
+    """-> dict(path, paths=[...], files=[...], bs, comp) or None"""
+    d = ctx.scratch / ("img%d" % idx)
+    (d / "data").mkdir(parents=True, exist_ok=True)
+    bs = rng.choice([4096, 4096, 8192, 16384])
+    comp = rng.choice(["gzip", "xz", "lz4", "zstd", "gzip"])
+    pack, xattr, paths = [], [], []
+    dirs = ["/d%d" % i for i in range(rng.randint(1, 4))]
+    if rng.random() < 0.6:
+        dirs.append(dirs[0] + "/sub")
+        dirs.append(dirs[0] + "/sub/deeper")
+    big = "/big"
+    for dd in dirs + [big]:
+        pack.append("dir %s 0755 %d %d" % (dd, rng.choice([0, 1000]), rng.choice([0, 100, 65534])))
+        paths.append(dd)
+    nfiles = rng.choice([15, 60, 60, 350])
+    shared_val = bytes(rng.randrange(256) for _ in range(rng.choice([40, 200, 700]))).hex()
+    for i in range(nfiles):
+        kind = rng.random()
+        parent = rng.choice(dirs) if rng.random() < 0.6 else big
+        name = "%s/%s%d" % (parent, rng.choice(["f", "file_with_a_rather_long_name_to_fill_directory_blocks_", "x"]), i)
+        uid, gid = rng.choice([0, 1, 1000, 70000]), rng.choice([0, 5, 1000])
+        if kind < 0.75:
+            size = rng.choice([0, 1, 17, 100, 1000, bs - 1, bs, bs + 1, 2 * bs + 77, 3 * bs, rng.randint(0, 5 * bs)])
+            c = rng.random()
+            if c < 0.4:
+                data = bytes(rng.randrange(256) for _ in range(min(size, 3000))) * (size // 3000 + 1)
+                data = data[:size]
+            elif c < 0.6:
+                data = bytes(size)                                                   # sparse
+            elif c < 0.8:
+                data = bytes(rng.randrange(256) for _ in range(size))                # incompressible
+            else:
+                data = (bytes(bs) + bytes(rng.randrange(256) for _ in range(bs)) + bytes(bs))[:size] if size > bs else b"a" * size
+            (d / "data" / ("f%d" % i)).write_bytes(data)
+            pack.append("file %s 0644 %d %d data/f%d" % (name, uid, gid, i))
+        elif kind < 0.85:
+            pack.append("slink %s 0777 %d %d %s" % (name, uid, gid, "../" * rng.randint(0, 3) + "target" * rng.randint(1, 30)))
+        elif kind < 0.9:
+            pack.append("nod %s 0600 %d %d %s %d %d" % (name, uid, gid, rng.choice("cb"), rng.randint(0, 255), rng.randint(0, 255)))
+        elif kind < 0.95:
+            pack.append("pipe %s 0600 %d %d" % (name, uid, gid))
+        else:
+            pack.append("sock %s 0600 %d %d" % (name, uid, gid))
+        paths.append(name)
+        if rng.random() < 0.3:
+            xattr.append("# file: %s" % name.lstrip("/"))
+            for j in range(rng.randint(1, 4)):
+                if rng.random() < 0.5:
+                    xattr.append("user.k%d=0x%s" % (j, shared_val))                  # repeated value -> stored out of line
+                else:
+                    xattr.append("user.k%d=0x%s" % (j, bytes(rng.randrange(256) for _ in range(rng.randint(1, 300))).hex()))
+            xattr.append("")
+    (d / "pack.txt").write_text("\n".join(pack) + "\n")
+    (d / "xattr.txt").write_text("\n".join(xattr) + "\n")
+    out = d / "img.sqfs"
+    cmd = [str(gen), "-F", str(d / "pack.txt"), "-D", str(d), "-b", str(bs), "-c", comp, "-q", "-f", "-j", "2"]
+    if xattr:
+        cmd += ["-A", str(d / "xattr.txt")]
+    if rng.random() < 0.3:
+        cmd.append("-e")
+    cmd.append(str(out))
+    r = vlib.sh(cmd, env=ctx.san_env(), timeout=300, errors="replace")
+    if r.returncode != 0 or not out.exists():
+        return {"error": "gensquashfs failed rc=%d: %s" % (r.returncode, r.stderr[-500:]), "cmd": cmd}
+    return {"path": out, "paths": paths, "bs": bs, "comp": comp, "dir": d}
+
+
+def damage_image(rng, src, dst):
+    b = bytearray(src.read_bytes())
+    ino_start = int.from_bytes(b[64:72], "little")
+    used = int.from_bytes(b[40:48], "little")
+    lo, hi = (ino_start, min(used, len(b))) if 96 < ino_start < len(b) and rng.random() < 0.85 else (96, len(b))
+    n = rng.choice([1, 1, 2, 5, 20])
+    for _ in range(n):
+        i = rng.randrange(lo, hi)
+        b[i] = rng.choice([b[i] ^ (1 << rng.randrange(8)), rng.randrange(256), 0, 255])
+    dst.write_bytes(bytes(b))
+    return n
+
+
+def gen_image_episode(ctx, harness, rng, image, idx, nops, damaged):
+    path = image["path"]
+    meta = {"comp": image["comp"], "bs": image["bs"], "damaged": damaged, "kinds": []}
+    head = []
+    if damaged:
+        dst = image["dir"] / ("dmg%d.sqfs" % idx)
+        meta["flips"] = damage_image(rng, path, dst)
+        path = dst
+    head.append("imgfile %s" % path)
+    if rng.random() < (0.3 if damaged else 0.1):
+        size = path.stat().st_size
+        head.append("bad %d %d" % (rng.randrange(96, size), rng.randint(1, 64)))
+        meta["bad"] = True
+    head += ["img open", "img walk"]
+    out, rc, err = run_harness(ctx, harness, head, 120)
+    if rc != 0 or len(out) != len(head):
+        return head, meta, ("crash", rc, err)
+    if not out[-2].startswith("st=ok"):
+        return None, meta, None                      # image no longer opens: nothing to query
+    refs = []
+    if out[-1].startswith("refs=") and out[-1] != "refs=-":
+        for t in out[-1][5:].split(";"):
+            a, b, c = t.split(":")
+            refs.append((int(a), int(b), int(c)))
+    if not refs:
+        return None, meta, None
+    files = [r for r in refs if r[1] in (2, 9)]
+    dirs_ = [r for r in refs if r[1] in (1, 8)]
+    xidx = sorted({r[2] for r in refs if r[2] != 0xFFFFFFFF})
+    lines = head[:-1]
+    bs = image["bs"]
+
+    def any_ref():
+        r = rng.random()
+        if r < 0.8:
+            return rng.choice(refs)[0]
+        if r < 0.9:
+            return max(0, rng.choice(refs)[0] + rng.choice([-1, 1, 16, -16, 65536, 1 << 16 | 5]))
+        return rng.choice([rng.randrange(1 << 20), rng.randrange(1 << 34), (1 << 48) - 1, 8191, 8192 << 16])
+
+    for _ in range(nops):
+        r = rng.random()
+        if r < 0.22:
+            lines.append("img inode %d" % any_ref())
+        elif r < 0.40:
+            lines.append("img ls %d" % (rng.choice(dirs_)[0] if dirs_ and rng.random() < 0.85 else any_ref()))
+        elif r < 0.52:
+            p = rng.choice(image["paths"])
+            if rng.random() < 0.2:
+                p = p + rng.choice(["/nope", "x", "//", "/../.."])
+            if rng.random() < 0.3:
+                p = p.lstrip("/")
+            lines.append("img path %s" % p.encode().hex())
+        elif r < 0.74:
+            ref = rng.choice(files)[0] if files and rng.random() < 0.9 else any_ref()
+            off = rng.choice([0, 0, bs, bs - 1, bs + 1, 2 * bs, rng.randint(0, 6 * bs)])
+            size = rng.choice([0, 1, 100, bs, bs + 1, 3 * bs, rng.randint(0, 4 * bs)])
+            lines.append("img read %d %d %d" % (ref, off, size))
+        elif r < 0.82:
+            lines.append("img cat %d" % (rng.choice(files)[0] if files and rng.random() < 0.9 else any_ref()))
+        elif r < 0.90:
+            i = rng.choice(xidx) if xidx and rng.random() < 0.8 else rng.choice([0, 1, 5, 1000, 0xFFFFFFFF, 0xFFFFFFFE])
+            lines.append("img %s %d" % (rng.choice(["xattr", "xattrkv"]), i))
+        else:
+            lines.append("img id %d" % rng.choice([0, 1, 2, 3, 4, 7, 65535]))
+    return lines, meta, None
+
+
+def hist_mismatches(impl):
+    bad = []
+    for i, l in enumerate(impl):
+        if " || " in l:
+            a, b = strip_io(l).split(" || ")
+            if a != b:
+                bad.append(i)
+    return bad
+
+
+def build_patched_harness(ctx):
+    """the same harness with meta_reader.c / data_reader.c replaced by copies that have the proposed repairs applied
+    (None when the patches do not apply, i.e. the tree already contains them)"""
+    root = ctx.scratch / "patched"
+    (root / "lib/sqfs/src").mkdir(parents=True, exist_ok=True)
+    srcs = []
+    applied = 0
+    for f, pt in (("meta_reader.c", PATCHES[0]), ("data_reader.c", PATCHES[1])):
+        dst = root / "lib/sqfs/src" / f
+        dst.write_bytes((vlib.REPO / "lib/sqfs/src" / f).read_bytes())
+        pf = vlib.VERIF / "fixes" / pt
+        if pf.exists():
+            r = vlib.sh(["patch", "-p1", "-s", "-N", "-r", "-", "-i", str(pf)], cwd=str(root))
+            if r.returncode == 0:
+                applied += 1
+            else:
+                dst.write_bytes((vlib.REPO / "lib/sqfs/src" / f).read_bytes())
+        srcs.append(str(dst))
+    if not applied:
+        return None
+    lib = ctx.build_lib()
+    return ctx.cc("h_c10_patched", HARNESS_SRC + srcs, flags=["-DH_C10_WITH_DATA", "-I%s" % (vlib.REPO / "lib/sqfs/src")],
+                  libs=[str(lib)] + vlib.CODEC_LIBS)
+
+
+def run_image_part(ctx, harness, counts):
+    gen = ctx.build_tool("gensquashfs")
+    nimg = 3 if ctx.quick() else 20
+    nvalid, ndmg, nops = (1, 3, 150) if ctx.quick() else (2, 8, 400)
+    eps, stats = [], {"images": 0, "episodes": 0, "ops": 0, "hist_ne_fresh_lines": 0, "unopenable_damaged": 0, "cat_checked": 0,
+                      "by_comp": {}, "explained_by_repair": 0}
+    for i in range(nimg):
+        image = make_image(ctx, gen, ctx.rng, i)
+        if "error" in image:
+            ctx.violation("crash:gensquashfs", "gensquashfs of the working tree failed on a generated tree: " + image["error"],
+                          {"cmd": [str(c) for c in image["cmd"]]})
+            continue
+        stats["images"] += 1
+        stats["by_comp"][image["comp"]] = stats["by_comp"].get(image["comp"], 0) + 1
+        for j in range(nvalid + ndmg):
+            damaged = j >= nvalid
+            lines, meta, crash = gen_image_episode(ctx, harness, ctx.rng, image, i * 100 + j, nops, damaged)
+            if crash:
+                ctx.violation("crash:img-open:%s" % vlib.sha("\n".join(lines))[:10], "real reader code aborted while opening/walking an image "
+                              "(rc=%s): %s" % (crash[1], crash[2][-300:]), {"script": lines, "note": "image file is regenerated by the check; "
+                              "seed and tier reproduce it"})
+                continue
+            if lines is None:
+                stats["unopenable_damaged"] += 1
+                continue
+            eps.append((lines, meta))
+    patched = [None, False]
+
+    def get_patched():
+        if not patched[1]:
+            patched[0] = build_patched_harness(ctx)
+            patched[1] = True
+        return patched[0]
+
+    with concurrent.futures.ThreadPoolExecutor(max_workers=min(8, vlib.NCPU)) as ex:
+        futs = [ex.submit(run_harness, ctx, harness, lines, 600) for lines, _ in eps]
+        for (lines, meta), fu in zip(eps, futs):
+            impl, rc, err = fu.result()
+            stats["episodes"] += 1
+            stats["ops"] += len(impl)
+            replay = {"script": lines, "stderr": err[-600:], "note": "image files live in the check's scratch directory; re-run the check with the "
+                      "same VERIF_SEED/tier to regenerate them"}
+            if rc != 0 or len(impl) != len(lines):
+                counts["img-crash"] = counts.get("img-crash", 0) + 1
+                ctx.violation("crash:img:%s" % vlib.sha("\n".join(lines))[:10], "real reader code aborted on a whole-image history (rc=%d) at line "
+                              "%d: %s" % (rc, len(impl), lines[min(len(impl), len(lines) - 1)]), replay)
+                continue
+            bad = hist_mismatches(impl)
+            stats["hist_ne_fresh_lines"] += len(bad)
+            if bad:
+                ph = get_patched()
+                explained = False
+                if ph is not None:
+                    impl2, rc2, _ = run_harness(ctx, ph, lines, 600)
+                    explained = rc2 == 0 and len(impl2) == len(lines) and not hist_mismatches(impl2)
+                i0 = bad[0]
+                if explained:
+                    stats["explained_by_repair"] += 1
+                    stats.setdefault("sample_explained", []).append({"damaged": meta["damaged"], "comp": meta["comp"], "op": lines[i0],
+                                                                      "answer": impl[i0][:300]})
+                    counts["img-D2"] = counts.get("img-D2", 0) + 1
+                    ctx.violation(KEY_D2, "whole-image history: a used reader answers differently from a fresh one (%s -> %s); the disagreement "
+                                  "vanishes with fixes/C10-*.patch applied" % (lines[i0], impl[i0][:200]), replay)
+                else:
+                    counts["img-hist"] = counts.get("img-hist", 0) + 1
+                    ctx.violation("hist:img:%s" % vlib.sha("\n".join(lines))[:10], "whole-image history: the same query is answered differently "
+                                  "by used and fresh readers: %s -> %s" % (lines[i0], impl[i0][:300]), replay)
+            else:
+                counts["img-ok"] = counts.get("img-ok", 0) + 1
+            if not meta["damaged"] and not meta.get("bad"):
+                for l, o in zip(lines, impl):
+                    if l.startswith("img cat ") and o.startswith("read="):
+                        stats["cat_checked"] += 1
+                        f = dict(t.split("=") for t in o.split(" || ")[0].split())
+                        if not (f["read"] == f["blocks"] == f["stream"] and f["read"].startswith("0:")):
+                            ctx.violation("agree:%s" % vlib.sha(o)[:10], "the three file-data APIs disagree on a file the library wrote: %s -> %s"
+                                          % (l, o[:300]), replay)
+    return stats
+
+
 def corpus_episodes():
     eps = []
     cdir = vlib.CORPUS / "C10"
@@ -460,7 +728,10 @@ def run(ctx):
             if l.startswith("mr") and " q " in l and i < len(res["impl"]):
                 sample.append({"op": l, "impl": res["impl"][i][:200], "model": res["fix"][i][:200]})
                 break
+    img_stats = run_image_part(ctx, harness, counts)
+    nlines += img_stats["ops"]
     ctx.cov.update({
+        "whole_image_histories": img_stats,
         "evaluations": nlines,
         "distinct_nontrivial": len(distinct),
         "rule": "%d corpus + %d generated episodes (one toy image of 2..10 chained metadata blocks each: raw/compressed/expanding/"
